@@ -1,0 +1,24 @@
+/**
+ * @file verif_hooks.h
+ *
+ * @brief Verification hooks (compiled only with -DROOTSIM_VERIF)
+ *
+ * With the guard off every macro here expands to nothing. The functions are implemented by
+ * the external verification harness, never by the library.
+ *
+ * SPDX-License-Identifier: GPL-3.0-only
+ */
+#pragma once
+
+#ifdef ROOTSIM_VERIF
+#include <stdint.h>
+/// Cooperative scheduling point: the harness may pause the calling thread here
+extern void verif_yield(int point);
+/// Trace record: kind plus up to four words of data
+extern void verif_trace(int kind, uint64_t a, uint64_t b, uint64_t c, uint64_t d);
+#define VERIF_YIELD(point) verif_yield(point)
+#define VERIF_TRACE(kind, a, b, c, d) verif_trace((kind), (uint64_t)(a), (uint64_t)(b), (uint64_t)(c), (uint64_t)(d))
+#else
+#define VERIF_YIELD(point)
+#define VERIF_TRACE(kind, a, b, c, d)
+#endif
